@@ -50,11 +50,13 @@ func Ldexp(frac Decimal, exp int) Decimal {
 		return frac
 	}
 
-	if exp < minUnbiasedExponent {
+	// frac can hold any exponent itself, so only shifts that take even the
+	// largest value below the smallest one (or vice versa) are decided here.
+	if exp < -(maxBiasedExponent + maxDigits + 1) {
 		return zero(frac.Signbit())
 	}
 
-	if exp > maxUnbiasedExponent+39 {
+	if exp > maxBiasedExponent+maxDigits+1 {
 		return inf(frac.Signbit())
 	}
 
